@@ -29,6 +29,8 @@ from vlib.val import line
 from vlib.compare import diff, Err
 
 ID = 'C04'
+# theorems of this property stated for the object evaluator `Obj.evaluate` (bridge through C02)
+EXTRA_THEOREMS = [('Splipy.Properties.Bridge', 'Splipy/Properties/Bridge.lean', 'Bridge_C04_')]
 RTOL = 1e-9
 ATOL = 1e-11
 KNOT_RTOL = 1e-12
